@@ -74,8 +74,11 @@ def opKahn (inp imp : Json) : Except String Json := do
   let nodes ← getStrList inp "nodes"
   let edgesJ ← getArr inp "edges"
   let edges ← edgesJ.mapM fun e => do
-    let a ← asStrList e
-    pure (a[0]!, a[1]!)
+    -- [from, to] or [from, to, edge kind]: the kind does not influence the order
+    let arr ← e.getArr?
+    let f ← (arr[0]!).getStr?
+    let t ← (arr[1]!).getStr?
+    pure (f, t)
   let m := K.kahn nodes edges
   let implOk := match getStrList imp "ok" with
     | .ok l => some l
